@@ -147,19 +147,9 @@ def rule_exclusion_slash(ctx: Ctx, rule: str) -> None:
     ctx.text(rule, 'same directory-slash convention before exclusion on both sides: Glob._match_excluded appends the separator when '
                    'is_dir; _Match._match_real appends it when the file system says directory')
     repo = ctx.repo
-    me = repo.func('glob', 'Glob._match_excluded')
-    ifs = [n for n in walk_no_nested(me.node) if isinstance(n, ast.If) and any(norm_src(s) == 'filename += self.sep' for s in n.body)]
-    ok = len(ifs) == 1 and equivalent_tests(ifs[0].test, 'is_dir and not filename.endswith(self.sep)')
-    q = fq(me)
-    first_loop = [n for n in q.cfg.nodes if n.kind == 'for']
-    dom = bool(ifs) and bool(first_loop) and q.cfg.dominates(q.node_of(ifs[0]), first_loop[0].id)
-    ctx.ob(rule, 'glob:Glob._match_excluded/dir-slash', ok and dom, repo.loc('glob', me.node), 'if is_dir and not filename.endswith(self.sep): filename += self.sep, before the loop',
-           norm_src(ifs[0].test) if ifs else 'none', witness="glob('*', exclude='d/') must drop the directory d")
-    mr = repo.func('_wcmatch', '_Match._match_real')
-    ifs2 = [n for n in walk_no_nested(mr.node) if isinstance(n, ast.If) and any(norm_src(s) == 'filename = self.filename + sep' for s in n.body)]
-    ok2 = len(ifs2) == 1 and equivalent_tests(ifs2[0].test, 'not is_dir and is_file_dir')
-    ctx.ob(rule, '_wcmatch:_Match._match_real/dir-slash', ok2, repo.loc('_wcmatch', mr.node), 'if not is_dir and is_file_dir: filename = self.filename + sep',
-           norm_src(ifs2[0].test) if ifs2 else 'none', witness="globmatch('d', '*/', REALPATH) is True exactly when d is a directory")
+    from . import matchrules
+    matchrules.rule_match_excluded(ctx, rule, which={'dir-slash'})
+    matchrules.rule_dir_slash_real(ctx, rule)
 
 
 # ================================================================================================ C12
@@ -391,41 +381,50 @@ def rule_follow_rule(ctx: Ctx, rule: str) -> None:
     ctx.text(rule, 'same follow rule on both sides: Glob.follow_links and the `follow` argument built by _wcparse.compile are the '
                    'same function FOLLOW ∧ ¬GLOBSTARLONG; exclusion patterns are applied with follow forced true')
     repo = ctx.repo
+    from .common import api_table, bind_call, passes_through, decided_bits
+    from ..symeval import focus, _tag
     cp = repo.func(WP, 'compile')
-    calls = [c for c in walk_no_nested(cp.node) if isinstance(c, ast.Call) and norm_src(c.func) == 'WcRegexp']
-    if len(calls) != 1:
-        raise AnalysisError('_wcparse.compile: WcRegexp construction not found')
-    c = calls[0]
-    args = [norm_src(a) for a in c.args]
-    ok = len(args) == 5 and equivalent_tests(c.args[4], 'flags & FOLLOW and not flags & GLOBSTARLONG') and \
-        equivalent_tests(c.args[2], 'flags & REALPATH') and equivalent_tests(c.args[3], 'flags & PATHNAME') and \
-        args[0] == 'tuple(positive)' and args[1] == 'tuple(negative)'
-    ctx.ob(rule, f'{WP}:compile/WcRegexp-arguments', ok, repo.loc(WP, c), '(tuple(positive), tuple(negative), REALPATH, PATHNAME, FOLLOW ∧ ¬GLOBSTARLONG)',
-           ', '.join(args)[:140], witness="globmatch('link/x', '**', G|L|GL, REALPATH) must agree with glob('**', G|L|GL)")
-    gi = repo.func('glob', 'Glob.__init__')
-    d = [s for s in walk_no_nested(gi.node) if isinstance(s, (ast.Assign, ast.AnnAssign)) and
-         norm_src(s.targets[0] if isinstance(s, ast.Assign) else s.target) == 'self.follow_links']
-    ok2 = len(d) == 1 and norm_src(d[0].value) == 'bool(self.flags & FOLLOW) and (not self.globstarlong)'
-    gl = [s for s in walk_no_nested(gi.node) if isinstance(s, (ast.Assign, ast.AnnAssign)) and
-          norm_src(s.targets[0] if isinstance(s, ast.Assign) else s.target) == 'self.globstarlong']
-    ok2 = ok2 and len(gl) == 1 and norm_src(gl[0].value) == 'bool(self.flags & GLOBSTARLONG)'
-    ctx.ob(rule, 'glob:Glob.__init__/follow_links', ok2, repo.loc('glob', gi.node), 'bool(self.flags & FOLLOW) and not bool(self.flags & GLOBSTARLONG)',
-           norm_src(d[0].value) if d else 'none', witness="glob('**', G|L|GL) must not traverse symlinked directories")
-    mr = repo.func('_wcmatch', '_Match._match_real')
-    loops = {norm_src(l.iter): l for l in walk_no_nested(mr.node) if isinstance(l, ast.For)}
-    inc = loops.get('self.include')
-    exc = loops.get('self.exclude')
-    if inc is None or exc is None:
-        raise AnalysisError('_match_real: include / exclude loops not found')
+    RP, PN, FO, GSL = (repo.const(WP, k) for k in ('REALPATH', 'PATHNAME', 'FOLLOW', 'GLOBSTARLONG'))
+    ev, paths = api_table(repo, WP, 'compile')
+    bad = []
+    for p in paths:
+        focus(p)
+        cps = p.calls_to(f'{WP}:compile_pattern')
+        ws = p.calls_to('_wcmatch:WcRegexp')
+        if len(cps) != 1 or len(ws) != 1:
+            bad.append(f'{len(cps)} compile_pattern / {len(ws)} WcRegexp calls')
+            continue
+        cb = bind_call(repo, f'{WP}:compile_pattern', cps[0][1], cps[0][2])
+        if not passes_through(cb.get('flags'), 'flags', 0, decided_bits(p, 'flags')):
+            bad.append(f'compile_pattern flags {_tag(cb.get("flags"))}')
+        res = f'{WP}:compile_pattern(' + ', '.join([_tag(a) for a in cps[0][1]] + [f'{k}={_tag(v)}' for k, v in cps[0][2].items()]) + ')'
+        wb = bind_call(repo, '_wcmatch:WcRegexp', ws[0][1], ws[0][2])
+        if _tag(wb.get('include')) != f'tuple({res}[0])' or _tag(wb.get('exclude')) != f'tuple({res}[1])':
+            bad.append(f'include/exclude = {_tag(wb.get("include"))[:60]} / {_tag(wb.get("exclude"))[:60]}')
 
-    def follow_arg(loop: ast.For) -> str:
-        for c2 in ast.walk(loop):
-            if isinstance(c2, ast.Call) and norm_src(c2.func) == 'self._fs_match' and len(c2.args) >= 4:
-                return norm_src(c2.args[3])
-        return '?'
-    ctx.ob(rule, '_wcmatch:_Match._match_real/include-follow', follow_arg(inc) == 'self.follow', repo.loc('_wcmatch', inc), 'self.follow', follow_arg(inc))
-    ctx.ob(rule, '_wcmatch:_Match._match_real/exclude-follow', follow_arg(exc) == 'True', repo.loc('_wcmatch', exc), 'True (exclusions ignore symlinks)', follow_arg(exc),
-           witness="globmatch('link/x', ['**', '!**/x'], G|N, REALPATH): the exclusion must still see link/x")
+        def bitval(v: Any, b: int) -> Any:
+            if isinstance(v, Opaque) and v.tag == f'bit:flags:{b:x}':
+                return 'lazy'
+            d = p.decisions.get(f'bit:flags:{b:x}')
+            return 'ok' if isinstance(v, bool) and d is not None and v is d else f'{v!r} (bit decided {d})'
+        for k, b in (('real', RP), ('path', PN)):
+            r = bitval(wb.get(k), b)
+            if r not in ('lazy', 'ok'):
+                bad.append(f'{k} = {r}')
+        fo, gl = p.decisions.get(f'bit:flags:{FO:x}'), p.decisions.get(f'bit:flags:{GSL:x}')
+        fv = wb.get('follow')
+        exp = False if (fo is False or gl is True) else (True if (fo is True and gl is False) else None)
+        if exp is None or fv is not exp:
+            bad.append(f'FOLLOW={fo} GLOBSTARLONG={gl}: follow = {fv!r}')
+        if not (isinstance(p.ret, Opaque) and p.ret.tag.startswith('_wcmatch:WcRegexp(')):
+            bad.append(f'returns {p.ret!r}')
+    ctx.ob(rule, f'{WP}:compile/WcRegexp-arguments', not bad and len(paths) >= 3, repo.loc(WP, cp.node),
+           'WcRegexp(tuple(positive), tuple(negative), REALPATH, PATHNAME, FOLLOW ∧ ¬GLOBSTARLONG) from compile_pattern(patterns, flags, limit, exclude)',
+           f'{len(paths)} rows agree' if not bad else sorted(set(bad))[0][:200], witness="globmatch('link/x', '**', G|L|GL, REALPATH) must agree with glob('**', G|L|GL)")
+    from . import ginit
+    ginit.rule_derived_attrs(ctx, rule, which={'follow_links', 'globstarlong'})
+    from . import matchrules
+    matchrules.rule_application_mode(ctx, rule, which={'follow-rule', 'application'})
 
 
 def rule_negate_flags_normalised(ctx: Ctx, rule: str) -> None:
